@@ -13,6 +13,9 @@
 #       ring of REAL devices, links played by the harness; forwards counted by a watchdog
 #   busrefl peers=<n> wire=<hex>
 #       one raw BUS socket as a reflector device
+#   order kind=<busrefl|bus2|pair1refl|reqrep|survey> devs=<n> k=<senders> n=<messages each>
+#       k concurrent senders, numbered messages through REAL reflector / two-way / chained devices over inproc:
+#       per sender strictly increasing at every receiver (drops allowed, overtaking not)
 #   teardown fam=<..> mode=<blocked|idle|forwarded>
 #       a device is cancelled while it holds a message / idle / after a forward: result, sockets closed, no leak
 # The oracle is the property's wording evaluated on the implementation's own observations; the model
@@ -695,8 +698,32 @@ class Runner:
             raise Failure("spec", "the device's socket is still usable after the device stopped")
         self.bump("teardown_" + mode)
 
+    def run_order(self, c):
+        """k concurrent senders, numbered messages, through a reflector / two-way / chain of REAL devices over inproc:
+        per sender the numbers seen by every receiver must be strictly increasing (drops are allowed where the
+        protocol allows them, overtaking is not) -- theorem device_keeps_order"""
+        self.nops += 1
+        l = self.impl.ask("iorder %s %s %s %s" % (c["kind"], c["devs"], c["k"], c["n"]), 300)
+        m = re.match(r"iorder rv=(-?\d+)( NOT-QUIESCENT)? sent=(\d+) recv=(\d+) reorder=(\d+) back=(\d+) backreorder=(\d+) first=(\S+)$", l)
+        if not m:
+            raise Failure("harness", "unparsable iorder result %r" % l)
+        if m.group(2):
+            raise Failure("spec", "library did not become quiescent")
+        rv, sent, recv, reorder, back, backre = int(m.group(1)), int(m.group(3)), int(m.group(4)), int(m.group(5)), int(m.group(6)), int(m.group(7))
+        if rv != 0:
+            raise Failure("harness", "order scenario failed rv=%d: %s" % (rv, l))
+        if reorder or backre:
+            raise Failure("spec", "messages of one sender overtook each other on the way through the device(s): %d + %d out-of-order deliveries "
+                                  "among %d + %d received (first: %s) -- a device may drop, never reorder (nor echo a message to its sender)" % (reorder, backre, recv, back, m.group(8)))
+        if recv == 0 or recv > sent * (1 if c["kind"] != "busrefl" else 1):
+            raise Failure("spec", "order scenario: %d messages sent, %d received: %s" % (sent, recv, l))
+        self.bump("order_%s" % c["kind"])
+        self.bump("order_messages_checked", recv + back)
+
     def run_case(self, c, rng):
         t = c["type"]
+        if t == "order":
+            return self.run_order(c)
         if t == "teardown":
             return self.run_teardown(c)
         if t == "ichain":
@@ -877,6 +904,24 @@ def gen_loops(rng, tier):
     return cases
 
 
+def gen_order(rng, tier):
+    cases = []
+    q = tier == "quick"
+    for rep_ in range(3 if q else 40):
+        cases.append({"type": "order", "kind": "busrefl", "devs": "0", "k": "2", "n": "2500"})
+    cases.append({"type": "order", "kind": "busrefl", "devs": "0", "k": "3", "n": "1500"})
+    cases.append({"type": "order", "kind": "busrefl", "devs": "0", "k": "1", "n": "4000"})
+    for rep_ in range(2 if q else 20):
+        cases.append({"type": "order", "kind": "bus2", "devs": "0", "k": str(rng.choice([2, 3])), "n": "1500"})
+    for rep_ in range(1 if q else 10):
+        cases.append({"type": "order", "kind": "pair1refl", "devs": "0", "k": "1", "n": "2500"})
+    for fam in ("reqrep", "survey"):
+        for nd in ([0, 1, 3] if q else [0, 1, 2, 3, 5, 8, 14]):
+            for rep_ in range(1 if q else 4):
+                cases.append({"type": "order", "kind": fam, "devs": str(nd), "k": str(rng.choice([2, 3, 4])), "n": str(rng.choice([200, 400]))})
+    return cases
+
+
 def run(tier, seed, replay=None):
     rep = Report("C13", tier, seed)
     ok, msg = gen_consts("c13")
@@ -901,7 +946,7 @@ def run(tier, seed, replay=None):
         cases = [parse_case(l.strip()) for l in open(replay) if l.strip() and not l.startswith("#")]
     else:
         cases = [parse_case(l) for c in load_corpus("C13") for l in c]
-        cases += gen_ichain(rng, tier) + gen_tap(rng, 300 if tier == "quick" else 25000) + gen_inj(rng, tier) + gen_loops(rng, tier)
+        cases += gen_ichain(rng, tier) + gen_tap(rng, 300 if tier == "quick" else 25000) + gen_inj(rng, tier) + gen_loops(rng, tier) + gen_order(rng, tier)
     R = Runner(impl, model_bin("modeld_c13"))
     model_fail, bus_alive = [], 0
     hist = {}
@@ -977,6 +1022,10 @@ def run(tier, seed, replay=None):
         "before every message; device sockets, which a running device owns: after wiring, before the device starts; ichain: late=1) -- the ttl "
         "in force when the message is received decides; tap alternates discarded and plain messages on the same connections; every ring gets its "
         "message twice.  "
+        "order: k = 1..4 concurrent senders with numbered messages (2 x 2500 through a raw BUS reflector device, as many through a two-way BUS "
+        "device, a PAIR1 reflector, raw REQ / SURVEYOR bursts through 0..14 devices and back), buffers at their maxima: per sender strictly "
+        "increasing at every receiver (drops allowed, overtaking never; schedule dependent -- sized so that two forwarders on one socket show "
+        "tens of overtaken messages per case).  "
         "BUS rings (no hop limit exists) are run to the watchdog and recorded, a BUS reflector must not echo.  Real-time effects: none is used -- REQ "
         "resend and survey expiry are disabled / set to an hour, nothing waits on a clock.  non-trivial = distinct abstract cases.")
     rep.cov["not_covered"] = ("device teardown / error paths of device_cb (model: Route/RouteModel.device_cb, proved, not driven), best-effort drops "
